@@ -107,4 +107,44 @@ def handleWs : List String → String
                   ++ " " ++ toString r.indent ++ " " ++ encStrs r.lines
   | _ => "bad-op"
 
+/-- split `s` at the first `n` occurrences of '/' -/
+def splitFirst (s : String) (n : Nat) : List String :=
+  let parts := s.splitOn "/"
+  parts.take n ++ [ "/".intercalate (parts.drop n) ]
+
+structure MW where
+  cmd : List (Str × List Str) := []
+  files : List (Nat × Str × List Str) := []
+  yaml : List (Str × List Str) := []
+  code : List (Str × Dict) := []
+  ndirs : Nat := 0
+
+def mwTok (m : MW) (t : String) : MW :=
+  if t.startsWith "C/" then
+    match t.splitOn "/" with
+    | [_, e, c] => { m with cmd := m.cmd ++ [(decStr e, readlines [] (decStr c))] }
+    | _ => m
+  else if t.startsWith "P/" then
+    match t.splitOn "/" with
+    | [_, i, n, c] => { m with files := m.files ++ [(i.toNat!, decStr n, readlines [] (decStr c))] }
+    | _ => m
+  else if t.startsWith "Y/" then
+    match t.splitOn "/" with
+    | [_, sfx, names] => { m with yaml := m.yaml ++ [(decStr sfx, decStrs names)] }
+    | _ => m
+  else if t.startsWith "K/" then
+    match splitFirst t 2 with
+    | [_, l, d] => { m with code := m.code ++ [(decStr l, decDict d)] }
+    | _ => m
+  else if t.startsWith "N/" then { m with ndirs := (t.drop 2).toString.toNat! }
+  else m
+
+/-- `mw N/<ndirs> C/<ext>/<content>* P/<dir>/<name>/<content>* Y/<suffix>/<names>* K/<lang>/<dict>*` -/
+def handleMw (toks : List String) : String :=
+  let m := toks.foldl mwTok {}
+  let dirs := (List.range m.ndirs).map (fun i => (m.files.filter (fun f => f.1 = i)).map (fun f => f.2))
+  match collectMain m.cmd dirs m.yaml m.code with
+  | .crash e => "crash " ++ e
+  | .ok s => "ok " ++ " ".intercalate (["c", "f", "py", "lua"].map (fun l => encDict (getLang s l.toList)))
+
 end Driver
